@@ -3,7 +3,7 @@ from harness.gen_text import err_tag
 
 TYPES = [['int'], ['void'], ['std', 'string'], ['My', 'Data'], ['size_t'], ['dzn', 'locator']]
 NAMES = ['Calc', 'Process', 'f', 'DoIt', 'x', 'value', 'message', 'p1']
-DEFAULTS = [None, '', '123u', '""', 'nullptr', '{}', 'true']
+DEFAULTS = [None, '', '123u', '""', 'nullptr', '{}', 'true', '"    a  b"', "'\\t'", '" \\t "', '"x\\t\\ty"']      # whitespace that matters (inside literals); no , ( ) = (the reader's domain)
 
 
 def gen_typedesc(rng, with_default=True):
@@ -130,7 +130,18 @@ class C20(Prop):
         yield 'type-creation-functions', fact
         yield 'functions', fns
         yield 'ctors', ctors
+        # two blocks built without contents, one of them extended in place through its `contents` getter
+        two = []
+        for _ in range(max(20, n // 20)):
+            fam = rng.choice(['struct', 'class', 'namespace'])
+            ext = [rng.choice(['int a;', '', '  b();', 'Widget() = default;']) for _ in range(rng.randint(1, 3))]
+            if fam == 'namespace':
+                a, b = [rng.choice(['My', 'Lib'])], [rng.choice(['My', 'Lib', 'Detail']) for _ in range(rng.randint(0, 2))]
+            else:
+                a, b = rng.choice(['Widget', 'S']), rng.choice(['Tag', 'T2'])
+            two.append({'op': 'cpp.blocks2', 'family': fam, 'a': a, 'b': b, 'extend': ext, 'how': rng.choice(['append', 'iadd'])})
         yield 'blocks', blocks
+        yield 'blocks-built-without-contents', two
         yield 'misc', misc
 
     def impl(self, case):
@@ -202,6 +213,18 @@ class C20(Prop):
             tb = TextBlock(header=list(case['header'])) if case.get('header') else TextBlock()
             tb.lines = list(case['contents'])
             return str(Namespace(NamespaceIds(list(case['ids'])), tb))
+        if op == 'cpp.blocks2':
+            def mk(x):
+                if case['family'] == 'namespace':
+                    return Namespace(NamespaceIds(list(x)))
+                return (Struct if case['family'] == 'struct' else Class)(x)
+            a, b = mk(case['a']), mk(case['b'])
+            if case['how'] == 'append':
+                a.contents.append(list(case['extend']))
+            else:
+                tb = a.contents
+                tb += TextBlock(list(case['extend']))
+            return [str(a), str(b)]
         if op == 'cpp.misc':
             k = case['kind']
             if k == 'sysinc':
